@@ -540,6 +540,24 @@ def targeted_shadow_family():
     return out
 
 
+def targeted_append_family():
+    """append next to derive chains and projections that permute / subset the columns afterwards (positional mapping of the bottom relation)"""
+    a, b = C("a"), C("b")
+    bottom = lambda: Append([From(CFG["u"]), Select("a", "b")])
+    progs = [
+        ("append:permute-after", [From(CFG["t"]), Select("a", "b"), bottom(), Select("b", "a")]),
+        ("append:subset-after", [From(CFG["t"]), Select("a", "b"), bottom(), Select("b")]),
+        ("append:derive-chain", [From(CFG["t"]), Select("a", "b"), Derive(z=a + b), Derive(w=C("z") * 2), Select("b", "w"), bottom()]),
+        ("append:derive-chain-permute", [From(CFG["t"]), Select("a", "b"), Derive(z=a + b), Derive(w=C("z") * 2), Select("b", "w"), bottom(), Select("w", "b")]),
+        ("append:derive-chain-subset", [From(CFG["t"]), Select("a", "b"), Derive(z=a + b), Derive(w=C("z") * 2), Select("b", "w"), bottom(), Select("w")]),
+        ("append:derive-permute-filter", [From(CFG["t"]), Select("a", "b"), Derive(z=a + b), Select("z", "a"), bottom(), Select("a", "z"), Filter(C("z") > 0)]),
+        ("append:derive-chain-agg", [From(CFG["t"]), Select("a", "b"), Derive(z=a + b), Derive(w=C("z") * 2), Select("b", "w"), bottom(),
+                                     Aggregate(s=Fn("sum", C("w")), n=Fn("count", C("b")))]),
+        ("append:twice-permute", [From(CFG["t"]), Select("a", "b"), bottom(), bottom(), Select("b", "a")]),
+    ]
+    return [(tg, Prog(p)) for tg, p in progs]
+
+
 def family_c01(tier, seed):
     """quick: all pipelines of <=2 templates on both heads + a seed-rotated slice of length 3;
     thorough: all of length <=3 on the explicit-column head, <=2 on the wildcard head, plus a slice of length 4"""
@@ -556,7 +574,7 @@ def family_c01(tier, seed):
         rr.shuffle(l2)
         rr.shuffle(l3)
         l2, l3 = l2[:300], l3[:150]
-    out += l2 + l3 + targeted_let_family() + targeted_distinct_family() + targeted_group_take_family() + targeted_takes_family() + targeted_setop_family() + targeted_shadow_family()
+    out += l2 + l3 + targeted_let_family() + targeted_distinct_family() + targeted_group_take_family() + targeted_takes_family() + targeted_setop_family() + targeted_shadow_family() + targeted_append_family()
     out += list(enumerate_family(1 if tier == "quick" else 2, heads=("lit",)))
     out += list(enumerate_family(1 if tier == "quick" else 2, heads=("alias", "alias_wild")))
     if tier == "quick":
@@ -934,10 +952,13 @@ def family_c03(tier, seed):
         rr = random.Random(seed + 1)
         rr.shuffle(l3)
         l3 = l3[:200]
-    out += [x for x in l3 if x[0].count(">") == 2] + targeted_let_family() + targeted_sort_join_take_family() + targeted_group_take_family()
+    out += [x for x in l3 if x[0].count(">") == 2]
+    # targeted families are never sampled away
+    out += [("T|" + tg, pr) for tg, pr in targeted_let_family() + targeted_sort_join_take_family() + targeted_group_take_family() + targeted_takes_family()
+            + [x for x in targeted_setop_family() if x[0].endswith(":sort") or x[0].endswith(":sort-take")]]
     if tier == "quick":
         rnd = random.Random(seed)
-        head = [x for x in out if x[0].startswith("x:") or x[0].startswith("let_") or x[0].count(">") <= 1 or x[0].count(">") == 3]
+        head = [x for x in out if x[0].startswith("x:") or x[0].startswith("T|") or x[0].startswith("let_") or x[0].count(">") <= 1 or x[0].count(">") == 3]
         rest = [x for x in out if not (x[0].startswith("x:") or x[0].count(">") <= 1)]
         rnd.shuffle(rest)
         out = head + rest[:500]
